@@ -75,6 +75,15 @@ Theorem C11_training_affinity : forall cls d, In (cls, d) documented -> forall (
   training_affinity classes gemini_registry (full_call cls rho) has_y = expected_affinity d rho has_y.
 Proof. exact training_affinity_table. Qed.
 
+(* score(X, y) of each of the 17 estimators is get_gemini() -- called inside score, hence resolved from
+   the hyper-parameters as they are at that time -- applied to predict_proba(X) and to that same object's
+   compute_affinity(X, y); nothing remembered from fit is read, nothing is written.  Kauri: its
+   objective on predict(X) and _compute_kernel(X, y).  (Regenerated from the bodies of `score`.) *)
+Theorem C11_score_uses_current_params :
+  (forall cls d, In (cls, d) documented -> score_core cls = Some (doc_score_discriminative, [])) /\
+  score_core "Kauri" = Some (doc_score_kauri, []).
+Proof. exact score_uses_current_params. Qed.
+
 (* KernelRIM's kernel between new and training points *)
 Theorem C11_kernelrim_dispatch : forall bk bkp,
   (forall f, bk = VCallable f -> kernelrim_dispatch bk bkp = CallUser f) /\
@@ -152,6 +161,7 @@ Print Assumptions C11_get_gemini_table.
 Print Assumptions C11_registry_table.
 Print Assumptions C11_affinity_dispatch.
 Print Assumptions C11_training_affinity.
+Print Assumptions C11_score_uses_current_params.
 Print Assumptions C11_kernelrim_dispatch.
 Print Assumptions C11_kauri_dispatch.
 Print Assumptions C11_kauri_missing_matrix_refuted.
